@@ -12,6 +12,8 @@ CLAIMED = {
          "MIR-driver rules: wrap discipline by callee type arguments, chain following, dataflow + post-dominance at the terminal"),
  "C15": ("proof", "Proof by construction-site induction over the whole workspace: every Aggregate(SafeLong) in the compiler's MIR is a folded in-range constant, a widening of a <=32-bit integer, a copy/default, or control-dependent on Cmin <= v <= Cmax for the same never-reassigned v; representation private, no mutable access, no transmute; bounds fold to exactly +-(2^53-1) and the accepted interval is exact; all conversion routes use lossless conversions into the checked constructor. All obligations are re-derived from the current tree on every run.", "4/C15",
          "MIR-driver rules: construction-site enumeration, guard dominance with interval extraction, constant folding, who-may-write"),
+ "C20": ("other", "Determinism decided as absence of every way two runs could differ: no hash-order iteration and no process-varying input anywhere in the generator (who-may-call over all bodies, each with a positive control that must fire), every file-system write rooted through the call graph in generate_files' output directory, CLI fields wired to the Config setter of the same meaning, ordered containers for emitted order. Determinism of third-party formatters is trusted.", "4/C20",
+         "MIR-driver rules: effect who-may-call with positive controls, interprocedural path-root dataflow, CLI-to-Config dataflow table"),
 }
 NA = {
  "C11": "Content negotiation quantifies over parsed header lists and numeric q-values; its truth lives in comparator outcomes, not in the shape of the code. The structural clauses in reach are decided under C06/C04; a mirror of this implementation's iterator chain would be a brittle proxy (DESIGN.md section 4/C11).",
